@@ -6,13 +6,14 @@ From Coq Require Import List ZArith String Ascii Bool.
 Import ListNotations.
 Local Open Scope Z_scope.
 
-Inductive ty := TInt | TLong | TFloat | TBit | TBool | TChar | TStr | TVoid | TArr (t : ty).
+Inductive ty := TInt | TLong | TFloat | TBit | TBool | TChar | TStr | TVoid | TArr (t : ty) | TClass (c : string).
 
 Fixpoint ty_eqb (a b : ty) : bool :=
   match a, b with
   | TInt, TInt | TLong, TLong | TFloat, TFloat | TBit, TBit | TBool, TBool
   | TChar, TChar | TStr, TStr | TVoid, TVoid => true
   | TArr x, TArr y => ty_eqb x y
+  | TClass x, TClass y => String.eqb x y
   | _, _ => false
   end.
 
@@ -31,9 +32,11 @@ Arguments f_trunc {F}. Arguments f_show {F}. Arguments f_show_elem {F}.
 
 Inductive value (F : Type) :=
 | VInt (z : Z) | VLong (z : Z) | VFloat (f : F) | VBit (b : bool) | VBool (b : bool)
-| VChar (c : ascii) | VStr (s : string) | VArr (t : ty) (l : list (value F)) | VVoid.
+| VChar (c : ascii) | VStr (s : string) | VArr (t : ty) (l : list (value F)) | VVoid
+| VObj (l : option nat) (stamp : string).   (* reference (None = null) carrying the static class it was last stored under *)
 Arguments VInt {F}. Arguments VLong {F}. Arguments VFloat {F}. Arguments VBit {F}.
 Arguments VBool {F}. Arguments VChar {F}. Arguments VStr {F}. Arguments VArr {F}. Arguments VVoid {F}.
+Arguments VObj {F}.
 
 Inductive lit :=
 | LInt (z : Z) | LLong (z : Z)
@@ -53,7 +56,18 @@ Inductive expr :=
 | EArr (es : list expr)
 | ECall (f : string) (args : list expr)
 | EPost (x : string) (inc : bool)
-| EAssign (x : string) (a : expr).
+| EAssign (x : string) (a : expr)
+(* object layer *)
+| ENew (c : string) (args : list expr)
+| EField (a : expr) (f : string)
+| EThis
+| ENull
+| EMCall (a : expr) (m : string) (args : list expr)        (* a.m(args): overload by static types, virtual dispatch *)
+| ESuperCall (m : string) (args : list expr)               (* super.m(args) *)
+| ESCall (c m : string) (args : list expr)                 (* C.m(args) on a static method *)
+| ESField (c f : string)                                   (* C.f *)
+| EFieldSet (a : expr) (f : string) (v : expr)             (* a.f = v *)
+| ESFieldSet (c f : string) (v : expr).                    (* C.f = v *)
 
 Inductive stmt :=
 | SDecl (fin : bool) (t : ty) (x : string) (init : option expr)
@@ -67,10 +81,17 @@ Inductive stmt :=
 | SEcho (e : expr)
 | SReturn (e : option expr)
 | SExpr (e : expr)
-| SBlock (ss : list stmt).
+| SBlock (ss : list stmt)
+| SDestroy (e : expr).
 
 Record fdecl := mkFn { fn_name : string; fn_params : list (ty * string); fn_ret : ty; fn_body : list stmt }.
-Definition program := list fdecl.
+Record field := mkField { fd_static : bool; fd_final : bool; fd_ty : ty; fd_name : string; fd_init : option expr }.
+Record ctor := mkCtor { ct_params : list (ty * string); ct_super : option (list expr); ct_body : list stmt; ct_default : bool }.
+Record meth := mkMeth { md_name : string; md_params : list (ty * string); md_ret : ty; md_body : list stmt;
+                        md_static : bool; md_virtual : bool }.       (* md_virtual: declared virtual or override *)
+Record cdecl := mkClass { cd_name : string; cd_base : option string; cd_fields : list field; cd_ctors : list ctor;
+                          cd_meths : list meth; cd_dtor : option (list stmt) }.
+Record program := mkProg { p_classes : list cdecl; p_fns : list fdecl }.
 
 (* runtime errors the documentation names *)
 Inductive rerr :=
@@ -79,6 +100,7 @@ Inductive rerr :=
 | RBitLen
 | RNegSize
 | RInitLen
+| RNull                      (* member access or call on null *)
 | RUndoc (why : string)    (* outside the range where the documentation fixes the result (long overflow,
                                float-to-integer conversion out of range) *)
 | RStuck (why : string).     (* no documented behaviour: an ill-typed operation; excluded by typing *)
